@@ -293,7 +293,7 @@ def run(ctx):
                 func_used[kk] = used + 1
                 ent = fe
         if ent is not None:
-            problems = check_requires(ctx, prog, ent.get("requires", []))
+            problems = check_requires(ctx, prog, ent.get("requires", []), site=s)
             used_table.add(ent["_key"])
             if problems:
                 rule.violation(key, "reviewed site whose recorded guard no longer holds: %s (review note: %s)" % ("; ".join(problems), ent["why"]), s.loc)
@@ -389,9 +389,39 @@ def run(ctx):
 _req_cache = {}
 
 
-def check_requires(ctx, prog, reqs):
+_flow_cache = {}
+
+
+def fact_matches(rx_, fact):
+    """regex against the POSITIVE text of the fact's atom; the fact must hold positively, unless the regex starts with '!'
+    (then the atom must hold negatively).  A pattern can therefore never match inside a `not(..)` by accident."""
+    neg = rx_.startswith("!")
+    if neg:
+        rx_ = rx_[1:]
+    (atom, truth) = fact
+    if truth == neg:
+        return False
+    return re.search(rx_, show_fact((atom, True))) is not None
+
+
+def any_fact(rx_, facts):
+    """alternatives separated by ' || ' (each may carry its own '!')"""
+    return any(fact_matches(alt, f) for alt in rx_.split(" || ") for f in facts)
+
+
+def check_requires(ctx, prog, reqs, site=None):
     probs = []
     for rq in reqs:
+        if rq[0] == "dom":
+            # ("dom", regex): the site itself is dominated by a fact whose text matches (checked in the site's own function)
+            if site is None:
+                probs.append("`dom` requirement without a site")
+                continue
+            f = site.func
+            fl = _flow_cache.setdefault(f.path, Flow(f.body))
+            if not any_fact(rq[1], fl.facts_at(site.bb)):
+                probs.append("site no longer dominated by /%s/ (facts here: %s)" % (rq[1], "; ".join(show_fact(x) for x in fl.facts_at(site.bb))[:200]))
+            continue
         key = repr(rq)
         if key not in _req_cache:
             _req_cache[key] = _check_one(ctx, prog, rq)
@@ -412,9 +442,8 @@ def _check_one(ctx, prog, rq):
         for blk in f.body.blocks:
             if blk.term.k == "switch" and not blk.cleanup:
                 for k in range(len(blk.term.targets) + 1):
-                    for fact in fl.edge_facts(("e", blk.i, k)):
-                        if re.search(rx_, show_fact(fact)):
-                            return None
+                    if any_fact(rx_, fl.edge_facts(("e", blk.i, k))):
+                        return None
         return "guard /%s/ not found in %s" % (rx_, fp.split("::")[-1])
     if kind == "dom_ok":
         # every Ok(..)/Some(..) return of the function is dominated by an edge whose fact matches
@@ -427,7 +456,7 @@ def _check_one(ctx, prog, rq):
         if not oks:
             return "no Ok return in %s" % fp
         for bb, e in oks:
-            if not any(re.search(rx_, show_fact(fact)) for fact in fl.facts_at(bb)):
+            if not any_fact(rx_, fl.facts_at(bb)):
                 return "an Ok return of %s is not dominated by /%s/" % (fp.split("::")[-1], rx_)
         return None
     if kind == "constructed_in":
@@ -452,8 +481,56 @@ def _check_one(ctx, prog, rq):
         if not ss:
             return "no call matching /%s/ in %s" % (crx, fp.split("::")[-1])
         for s in ss:
-            if not any(re.search(rx_, show_fact(fact)) for fact in fl.facts_at(s.bb)):
+            if not any_fact(rx_, fl.facts_at(s.bb)):
                 return "call %s in %s not dominated by /%s/" % (model.short_callee(s.term.callee_path()), fp.split("::")[-1], rx_)
+        return None
+    if kind == "site_dom_assume":
+        # ("site_dom_assume", function, callee regex, fact regex, assumption regex): like site_dom, after pruning every edge that
+        # contradicts the assumption (an edge carrying not(A))
+        _, fp, crx, rx_, arx = rq
+        f = prog.funcs.get(fp)
+        if f is None:
+            return "function %s not found" % fp
+        fl = Flow(f.body)
+
+        def contra(fact):
+            t = show_fact(fact)
+            m = re.fullmatch(r"not\((.*)\)", t)
+            if m and re.search(arx, m.group(1)):
+                return False
+            return None
+
+        fl.assume(contra)
+        ss = call_sites(f, lambda pth, c: re.search(crx, pth) is not None)
+        if not ss:
+            return "no call matching /%s/ in %s" % (crx, fp.split("::")[-1])
+        for s_ in ss:
+            if ("b", s_.bb) not in fl.reachable_nodes():
+                continue
+            if not any_fact(rx_, fl.facts_at(s_.bb)):
+                return "call %s in %s not dominated by /%s/ (assuming /%s/)" % (model.short_callee(s_.term.callee_path()), fp.split("::")[-1], rx_, arx)
+        return None
+    if kind == "field_assign_dom":
+        # ("field_assign_dom", adt, field, [fact regexes]): every plain assignment to the field (outside constructions) is dominated
+        # by a fact matching one of the regexes
+        _, adt, fld, alts = rq
+        for a in field_accesses(prog, adt, fld):
+            if a["func"].derived or a["kind"] == "construct":
+                continue
+            if a["kind"] == "borrow_mut":
+                return "%s.%s mutably borrowed in %s" % (adt.split("::")[-1], fld, a["func"].path.split("::")[-1])
+            fl = _flow_cache.setdefault(a["func"].path, Flow(a["func"].body))
+            if not any(any_fact(al, fl.facts_at(a["bb"])) for al in alts):
+                return "%s.%s assigned in %s at line %s without being dominated by any of %s" % (
+                    adt.split("::")[-1], fld, a["func"].path.split("::")[-1], a["sp"][1] if a["sp"] else "?", alts)
+        return None
+    if kind == "field_assigned_only_in":
+        _, adt, fld, allowed = rq
+        for a in field_accesses(prog, adt, fld):
+            if a["func"].derived or a["kind"] == "construct":
+                continue
+            if not any(re.search(al, a["func"].root().path) for al in allowed):
+                return "%s.%s written in %s" % (adt.split("::")[-1], fld, a["func"].root().path)
         return None
     if kind == "no_err_return":
         _, fp = rq
